@@ -557,3 +557,28 @@ def c11(c):
              "must never go through the internal-representation stub. Backends: model ILP32 and WIDE by name, noop through the static-call path.",
         exhaustive=False,
         assumptions=["arguments have the parameter's own type (the statement's precondition)"]))
+
+
+# --------------------------------------------------------------------- C09
+@plan("C09")
+def c09(c):
+    units = [dict(name="c09_toctou", srcs=[D + "c09_toctou.cpp"], build="asan", defs=EXC)]
+    runs = sliced("c09_toctou", 6, label="c09_interleave", args=[0])
+    runs.append(dict(unit="c09_toctou", label="c09_racing_thread", args=[1]))
+    return dict(units=units, runs=runs, evidence=dict(
+        level="exploration",
+        rule="case = (copy_and_verify variant, source content, interleave point k, adversary action). The sandbox region is access-trapped (mprotect + "
+             "x86 trap flag): a calibration run counts the N individual accesses RLBox makes to sandbox memory, then for EVERY k < N and every action "
+             "{lengthen string by overwriting its terminator, plant a NUL, flip every value, fill with 0xFF, retarget pointer cells} the call is "
+             "repeated with the action applied immediately before access k. Oracles per run: the object handed to the verifier lies outside the "
+             "sandbox region; its content is unchanged after the harness overwrites the entire region from inside the verifier; the value finally "
+             "returned equals what the verifier saw; every delivered element equals the reference conversion of what its source cell held before or "
+             "after the action; delivered strings are NUL-terminated inside their buffer (ASan watches the verifier's strlen) and not longer than the "
+             "range RLBox last checked (observed in the backend's membership queries). Variants: copy_and_verify on volatile int/long, pointer to "
+             "fundamental (direct and through a sandbox-resident pointer), pointer to struct, volatile struct, volatile array, copy_and_verify_range "
+             "(char, long), copy_and_verify_string (both verifier flavours; empty, length 1, 12, 40, terminator in the last byte of the region), "
+             "copy_and_verify_address, copy_and_verify_buffer_address, copy_memory_or_deny_access. Plus a real adversary thread toggling a string "
+             "between two lengths during 20 000 (quick) / 1 000 000 (thorough) calls. An abort is always an acceptable outcome.",
+        exhaustive=False,
+        exhaustive_subspaces=["every interleave point (each individual access to sandbox memory) of every variant x content, for each single adversary action"],
+        assumptions=["one adversary action per call (sequences of actions are not enumerated)", "ILP32 model backend; x86-64 trap flag single-stepping"]))
